@@ -224,7 +224,9 @@ def c16_jobs(tier, seed):
     stride = 2 if tier == "quick" else 1
     for d in ([1, 2, 5, 12, 18] if tier == "quick" else [1, 2, 4, 5, 9, 10, 12, 13, 18]):
         for s in core[d % stride::stride]:
-            J.append(dom_job(d, s, "c16q", budget=400 if tier == "quick" else 1200, tier=tier))
+            if d == 12 and tier == "quick":  # reduced product: the differential mode runs the history twice, keep 2 symbolic constants
+                s = gen.limit_sym(s, 2, random.Random(zlib.crc32(s.encode())))
+            J.append(dom_job(d, s, "c16q", budget=600 if tier == "quick" else 1200, tier=tier))
     for d in (22, 23):
         for s in core + gen.COW_CORE:
             J.append(dom_job(d, s, "c16w", budget=400, tier=tier))
